@@ -54,7 +54,7 @@ def execute(acc, g, case):
         calls = []
         routes = {}
         # ---- route table: for every app, some of its request classes; all handlers record (app, code)
-        for name in case["apps"]:
+        for name in [n for entry in case["apps"] for n in entry.split("+")]:
             lib = LIB_OF[name]
             reqs = [(k, v) for k, v in table.items() if k[0] == lib and v["request"] and k in classes]
             rng.shuffle(reqs)
@@ -155,6 +155,8 @@ def execute(acc, g, case):
                 n_dispatch += 1
                 acc.evaluations += 1
                 acc.counters["dispatches"] += 1
+                if any("+" in e and key[0] in e.split("+") for e in case["apps"]):
+                    acc.counters["dispatches_on_a_connection_serving_several_applications"] += 1
                 acc.sigs.add(harness.sig_hash("%d/%d/%s/%s/%s" % (len(case["apps"]), case["codes_per_app"], key[1], outcome, has_sid)))
                 new = [m for _, m in h.sent()[before:]]
                 own = [m for _, m in h.sent(key[0])]
@@ -349,7 +351,12 @@ def main(tier, seed):
     cases = []
     for i in range(48 if q else 8000):
         k = rng.choice([1, 2, 3, 4])
-        cases.append({"seed": seed * 211 + i, "apps": rng.sample(names, k), "codes_per_app": rng.choice([1, 2, 4]),
+        apps = rng.sample(names, k)
+        if k > 1 and i % 3 == 0:
+            # one connection entry that serves several applications (the peer talks Gx and Rx over one connection): "A+B"
+            j = rng.randrange(2, k + 1)
+            apps = ["+".join(apps[:j])] + apps[j:]
+        cases.append({"seed": seed * 211 + i, "apps": apps, "codes_per_app": rng.choice([1, 2, 4]),
                       "outcomes": OUTCOMES if rng.random() < 0.5 else rng.sample(OUTCOMES, 4)})
     for i in range(40 if q else 3000):
         cases.append({"concurrent": True, "seed": seed * 223 + i, "n": rng.choice([2, 3, 4, 6]), "p": rng.choice([0.05, 0.2, 0.5])})
